@@ -467,7 +467,7 @@ def recheck(a):
         print("baseline: check exit=%s wall=%ss %s" % (b["check_exit"], b["check_wall_s"], b["summary"]), flush=True)
         if b["check_exit"] != 0:
             raise SystemExit("the check does not pass on the unchanged tree: %s" % json.dumps(b)[:1500])
-        tmo = int(max(a.timeout, 3 * b["check_wall_s"]))
+        tmo = int(max(a.timeout, 600, 4 * b["check_wall_s"]))
         with lock:
             fout.write(json.dumps({"meta": True, "recheck": True, "pid": pid, "check_version": a.check_version, "repo_head": meta["repo_head"], "files": meta["files"],
                                    "sites": meta["sites"], "mutants": meta["mutants"], "seed": meta.get("seed"), "by_class": meta.get("by_class"),
@@ -488,6 +488,11 @@ def recheck(a):
                     rc, txt, _ = run([exe, "-file", os.path.join(REPO, r["file"]), "-apply", str(r["id"])]); assert rc == 0, txt
                     open(os.path.join(w.wt, r["file"]), "w").write(txt)
                     res = w.check(tmo)
+                    if res["timed_out"]:
+                        # the machine is shared and at times heavily loaded: a timeout is only believed after a second run
+                        # with three times the budget also runs out
+                        res = w.check(3 * tmo)
+                        res["retried_after_timeout_s"] = tmo
                     rec.update(res)
                     if res["timed_out"]:
                         rec["outcome"] = "detected-by-hang"
